@@ -25,7 +25,7 @@ Proof. exact batch_tables_is_fold. Qed.
    client unchanged.  (That it ALSO lists the keys without a stored item as unprocessed is known finding C19-1.) *)
 Theorem C19_batch_get_is_the_individual_gets :
   forall c reqs opts,
-    c_failure c = None -> batch_get_valid reqs opts = true ->
+    c_failure c = None -> batch_get_errors c reqs opts = [] ->
     exists unprocessed,
       batch_get V2 c reqs opts =
       (c, ok_obs (PBatchGet (map (fun tk => (fst tk, gets c (fst tk) (fst (opts_of opts (fst tk))) (snd (opts_of opts (fst tk))) (snd tk))) reqs) unprocessed) []).
